@@ -67,7 +67,7 @@ class Status(with_metaclass(HTTPSemantic)):
 	def reason(self, reason):
 		self.set((self.__code, reason))
 
-	STATUS_RE = re.compile(br"^([1-5]\d{2})(?:\s+([\s\w]*))\Z")
+	STATUS_RE = re.compile(br"^([1-5]\d{2})(?:\s+([\s\x21-\x7e]*))\Z")
 
 	def __init__(self, code: Optional[int]=None, reason: Optional[bytes]=None) -> None:
 		"""
